@@ -196,6 +196,60 @@ struct rt_inst {
 };
 
 static struct rt_inst *rt_cur;
+/* optional: writes through the callback of area rt_cb_fail_area that cover word rt_cb_fail_word fail with this code */
+static int rt_cb_fail_area = -1, rt_cb_fail_code;
+static uint32_t rt_cb_fail_word;
+static unsigned rt_cb_fail_hits;
+
+/* A device callback may use the register API itself (counting accesses in another table, say) before it looks at
+ * the words it was handed: a tiny memory-backed table of the harness' own, with one u32 counter that every
+ * callback reads, increments and writes back through the typed API. What the library holds for the outer call must
+ * survive that. */
+static RegisterAtom rt_nest_mem[4];
+static RegisterArea rt_nest_areas[2];
+static RegisterEntry rt_nest_entries[3];
+static RegisterTable rt_nest_table;
+static int rt_nest_state; /* 0: not built, 1: ready, -1: unusable */
+static uint32_t rt_nest_count;
+static int rt_nest_failed;
+
+static void
+rt_nest_access(void)
+{
+    if (rt_nest_state == 0) {
+        memset(rt_nest_areas, 0, sizeof rt_nest_areas);
+        memset(rt_nest_entries, 0, sizeof rt_nest_entries);
+        rt_nest_areas[0].read = reg_mem_read;
+        rt_nest_areas[0].write = reg_mem_write;
+        rt_nest_areas[0].flags = REG_AF_RW;
+        rt_nest_areas[0].base = 0x40;
+        rt_nest_areas[0].size = 4;
+        rt_nest_areas[0].mem = rt_nest_mem;
+        rt_nest_entries[0].type = REG_TYPE_UINT32;
+        rt_nest_entries[0].address = 0x40;
+        rt_nest_entries[1].type = REG_TYPE_UINT16;
+        rt_nest_entries[1].address = 0x43;
+        rt_nest_entries[2].type = REG_TYPE_INVALID;
+        rt_nest_table.area = rt_nest_areas;
+        rt_nest_table.entry = rt_nest_entries;
+        rt_nest_table.flags = 0;
+        rt_nest_state = register_init(&rt_nest_table).code == REG_INIT_SUCCESS ? 1 : -1;
+        rt_nest_count = 0;
+    }
+    if (rt_nest_state != 1)
+        return;
+    RegisterValue v;
+    RegisterAccess g = register_get(&rt_nest_table, 0, &v);
+    if (g.code != REG_ACCESS_SUCCESS || v.value.u32 != rt_nest_count)
+        rt_nest_failed = 1;
+    v.type = REG_TYPE_UINT32;
+    v.value.u32 = ++rt_nest_count;
+    if (register_set(&rt_nest_table, 0, v).code != REG_ACCESS_SUCCESS)
+        rt_nest_failed = 1;
+    RegisterAtom w[2];
+    if (register_block_read(&rt_nest_table, 0x40, 2, w).code != REG_ACCESS_SUCCESS)
+        rt_nest_failed = 1;
+}
 
 static RegisterAccess
 rt_cb_read(const RegisterArea *a, RegisterAtom *dst, RegisterOffset off, RegisterOffset n)
@@ -208,6 +262,7 @@ rt_cb_read(const RegisterArea *a, RegisterAtom *dst, RegisterOffset off, Registe
         rv.code = REG_ACCESS_IO_ERROR;
         return rv;
     }
+    rt_nest_access();
     memcpy(dst, rt_cur->store[idx] + off, n * sizeof(RegisterAtom));
     return rv;
 }
@@ -221,6 +276,14 @@ rt_cb_write(RegisterArea *a, const RegisterAtom *src, RegisterOffset off, Regist
     if (idx < 0 || idx >= rt_cur->d.nareas || (uint64_t)off + n > rt_cur->d.area[idx].size) {
         rt_cur->cb_out_of_range = 1;
         rv.code = REG_ACCESS_IO_ERROR;
+        return rv;
+    }
+    rt_nest_access();
+    if (rt_cb_fail_area == idx && rt_cb_fail_word >= off && rt_cb_fail_word < off + n) {
+        /* a device cell that cannot be programmed */
+        rv.code = (RegisterAccessCode)rt_cb_fail_code;
+        rv.address = a->base + rt_cb_fail_word;
+        rt_cb_fail_hits++;
         return rv;
     }
     memcpy(rt_cur->store[idx] + off, src, n * sizeof(RegisterAtom));
@@ -393,6 +456,11 @@ rt_compare_storage(struct rt_inst *in, const char *check, const char *key, const
     if (in->cb_out_of_range) {
         vh_fail("callback-out-of-range", key, "%s: an area callback was asked for words outside its area", ctx);
         in->cb_out_of_range = 0;
+        ok = 0;
+    }
+    if (rt_nest_failed) {
+        vh_fail("nested-access", key, "%s: typed accesses made from inside an area callback (on a table of their own) went wrong", ctx);
+        rt_nest_failed = 0;
         ok = 0;
     }
     return ok;
